@@ -77,11 +77,13 @@ def solve(model, dom, sc, ts, dt, y0=None, extra0=None, sde=None, bm=None):
 
 
 def heavy(model, dom, sc):
-    """Steps with many nested stages (SRK for diagonal / scalar noise): their canonical forms grow too fast for three steps."""
-    import time
-    t = time.time()
-    solve(model, dom, sc, [F(0), F(1, 8), F(1, 4)], F(1, 8))
-    return time.time() - t > 0.25
+    """Steps that loop over stages with nested state-dependent evaluations (SRK for diagonal / scalar noise): their canonical
+    forms grow by an order of magnitude per step, so they are replayed over two steps instead of three.  Decided from the
+    step's shape (a stage loop that evaluates the diffusion at stage values), not by timing."""
+    import ast as _ast
+    loops = [n for n in _ast.walk(sc.step_fi.node) if isinstance(n, _ast.For)]
+    return any("g_prod" in _ast.unparse(l) or ".g(" in _ast.unparse(l) for l in loops) and \
+        any(isinstance(n, _ast.For) for l in loops for n in _ast.walk(l) if n is not l)
 
 
 def same(a, b):
